@@ -697,7 +697,10 @@ func (in *interp) http(s *Service, m *Method) {
 		in.body(h.Body)
 		for _, r := range h.Responses {
 			r := r
-			dsl.Response(r.Code, func() {
+			body := func() {
+				if r.FuncCode {
+					dsl.Code(r.Code)
+				}
 				if r.ContentType != "" {
 					dsl.ContentType(r.ContentType)
 				}
@@ -711,7 +714,12 @@ func (in *interp) http(s *Service, m *Method) {
 				if len(r.Tag) == 2 {
 					dsl.Tag(r.Tag[0], r.Tag[1])
 				}
-			})
+			}
+			if r.FuncCode {
+				dsl.Response(body)
+			} else {
+				dsl.Response(r.Code, body)
+			}
 		}
 		for _, er := range h.Errors {
 			in.errResp(er)
